@@ -41,12 +41,18 @@ int is_ipv6(const char *start, const char *end)
 
 void harness(void)
 {
-    unsigned char s[VF_N + VF_CTX + 1];
+    unsigned char buf[VF_N + VF_CTX + 1];
     unsigned n = nondet_uint(), c = nondet_uint();
     VF_ASSUME(n <= VF_N && c <= VF_CTX);
+#ifdef VF_TAIL_ALIGN     /* terminator = last byte of the object */
+    unsigned char *s = buf + ((VF_N + VF_CTX) - (n + c));
+#else
+    unsigned char *s = buf;
+#endif
     for (unsigned i = 0; i < VF_N + VF_CTX; i++) {
+        if (i >= n + c) break;
         s[i] = nondet_uchar();
-        if (i < n + c) VF_ASSUME(s[i] != 0);
+        VF_ASSUME(s[i] != 0);
 #ifdef VF_ALPHABET_IP        /* restrict content to the bytes an address can contain plus one arbitrary other byte */
         if (i < n) VF_ASSUME(ref_ishex(s[i]) || s[i] == ':' || s[i] == '.' || s[i] == 'x');
 #endif
